@@ -184,57 +184,70 @@ def classify(h, data, text):
 PLAYBACK_RE = re.compile(r"```\s*\n(.*?)```", re.S)
 
 
-def concrete_playback(h, seed, timeout_s):
-    """Ask Kani for a concrete test for the failing harness, then execute it natively.
-    Returns (reproduced: bool|None, test_source|None, detail)."""
-    data, text, rc, wall, lp = run_kani(h["crate"], [h], seed, timeout_s, 1, "pb",
-                                        extra=["-Z", "concrete-playback", "--concrete-playback=print"])
-    m = PLAYBACK_RE.findall(text)
-    tests = [t for t in m if "kani_concrete_playback" in t]
-    if not tests:
-        return None, None, "kani produced no concrete playback test (log %s)" % lp
-    test_src = tests[0]
-    tn = re.search(r"fn (kani_concrete_playback_\w+)", test_src)
-    if not tn:
-        return None, test_src, "cannot find test name"
-    test_name = tn.group(1)
-    # scratch copy of the harness directory with the generated test appended to the harness's file
+def _playback_env(seed, scratch, crate, profile):
+    env = base_env(seed, scratch)
+    env["CARGO_TARGET_DIR"] = os.path.join(WORK, "target-playback-%s-%s" % (crate, profile))
+    if profile == "release":
+        # cargo kani playback has no --release: give the dev profile the semantics users run
+        env["CARGO_PROFILE_DEV_OPT_LEVEL"] = "3"
+        env["CARGO_PROFILE_DEV_DEBUG_ASSERTIONS"] = "false"
+        env["CARGO_PROFILE_DEV_OVERFLOW_CHECKS"] = "false"
+    return env
+
+
+def run_playback_tests(h, seed, tests, profiles=("dev", "release"), budget_s=900):
+    """Append the generated unit tests to a scratch copy of the harness file and run them natively."""
     scratch = os.path.join(WORK, "playback-%d" % os.getpid())
     if os.path.exists(scratch):
         shutil.rmtree(scratch)
     shutil.copytree(HARNESS_DIR, scratch)
-    hf = os.path.join(scratch, h["file"])
-    with open(hf, "a") as f:
-        f.write("\n// generated by Kani concrete playback\n" + test_src + "\n")
-    env = base_env(seed, scratch)
-    env["CARGO_TARGET_DIR"] = os.path.join(WORK, "target-playback-" + h["crate"])
+    with open(os.path.join(scratch, h["file"]), "a") as f:
+        for t in tests:
+            f.write("\n// generated by Kani concrete playback\n" + t + "\n")
+    names = [re.search(r"fn (kani_concrete_playback_\w+)", t).group(1) for t in tests]
     results = {}
-    for profile in ("dev", "release"):
-        cmd = ["cargo", "kani", "playback", "-Z", "concrete-playback"]
-        if profile == "release":
-            cmd += ["--release"]
-        cmd += ["--", test_name]
-        try:
-            p = subprocess.run(cmd, cwd=os.path.join(REPO, CRATE_DIR[h["crate"]]), env=env,
-                               stdout=subprocess.PIPE, stderr=subprocess.STDOUT, timeout=1800)
-            out = p.stdout.decode(errors="replace")
-        except subprocess.TimeoutExpired:
-            # a replay that does not terminate natively reproduces a step-budget violation
-            results[profile] = ("timeout", "native replay did not finish in 1800 s")
-            continue
-        ran = re.search(r"test .*%s .*\.\.\. (\w+)" % re.escape(test_name), out)
-        if ran is None:
-            results[profile] = ("error", out[-1500:])
-        elif ran.group(1) == "FAILED":
-            pm = re.search(r"panicked at ([^\n]*\n[^\n]*)", out)
-            results[profile] = ("panicked", pm.group(1) if pm else out[-800:])
-        else:
-            results[profile] = ("passed", "")
+    for profile in profiles:
+        env = _playback_env(seed, scratch, h["crate"], profile)
+        for tn in names:
+            cmd = "ulimit -v %d; exec cargo kani playback -Z concrete-playback -- %s --exact --test-threads 1" % (
+                8 * 1024 * 1024, h["name"].rsplit("::", 1)[0] + "::" + tn)
+            try:
+                p = subprocess.run(["bash", "-c", cmd], cwd=os.path.join(REPO, CRATE_DIR[h["crate"]]), env=env,
+                                   stdout=subprocess.PIPE, stderr=subprocess.STDOUT, timeout=budget_s)
+                out = p.stdout.decode(errors="replace")
+            except subprocess.TimeoutExpired:
+                results[profile + ":" + tn] = ("timeout", "native replay did not finish in %d s" % budget_s)
+                continue
+            ran = re.search(r"test \S*%s \.\.\. (\w+)" % re.escape(tn), out)
+            if ran and ran.group(1) == "FAILED":
+                pm = re.search(r"panicked at ([^\n]*\n[^\n]*)", out)
+                results[profile + ":" + tn] = ("panicked", pm.group(1) if pm else out[-800:])
+            elif ran and ran.group(1) == "ok":
+                results[profile + ":" + tn] = ("passed", "")
+            elif "memory allocation of" in out or "SIGABRT" in out or "SIGSEGV" in out or "stack overflow" in out:
+                results[profile + ":" + tn] = ("aborted", out[-600:])
+            else:
+                results[profile + ":" + tn] = ("error", out[-1500:])
     shutil.rmtree(scratch, ignore_errors=True)
-    repro = any(v[0] in ("panicked", "timeout") for v in results.values())
+    return results
+
+
+def concrete_playback(h, seed, timeout_s):
+    """Ask Kani for concrete tests for the failing checks of a harness, then execute them natively
+    (dev semantics = what Kani models, and release semantics = what users run).
+    Returns (reproduced: bool|None, test_sources|None, detail)."""
+    data, text, rc, wall, lp = run_kani(h["crate"], [h], seed, timeout_s, 1, "pb",
+                                        extra=["-Z", "concrete-playback", "--concrete-playback=print"])
+    m = PLAYBACK_RE.findall(text)
+    tests = [t for t in m if "kani_concrete_playback" in t and "Check for `cover`" not in t]
+    if not tests:
+        return None, None, "kani produced no concrete playback test for a failed check (log %s)" % lp
+    tests = tests[:4]
+    results = run_playback_tests(h, seed, tests)
+    repro = any(v[0] in ("panicked", "timeout", "aborted") for v in results.values())
     if all(v[0] == "error" for v in results.values()):
-        return None, test_src, "native replay did not build/run: %s" % results["dev"][1]
-    return repro, test_src, results
+        return None, tests, "native replay did not build/run: %s" % list(results.values())[0][1]
+    return repro, tests, {k: list(v) for k, v in results.items()}
 
 
 def load_known():
@@ -405,36 +418,26 @@ def check_property(prop, tier, seed, only=None, jobs=None):
 
 
 def replay(prop, path, seed):
-    """Re-run a stored replay: execute the stored concrete playback test natively against /repo."""
+    """Re-run a stored replay: execute the stored concrete playback tests natively against /repo."""
     d = json.load(open(path))
     h = [x for x in registry.HARNESSES if x["name"] == d["harness"]]
     if not h:
         log("unknown harness " + d["harness"])
         return 2
     h = h[0]
-    test_src = d.get("playback_test")
-    if not test_src:
+    tests = d.get("playback_test")
+    if not tests:
         log("replay file has no concrete test")
         return 2
-    tn = re.search(r"fn (kani_concrete_playback_\w+)", test_src).group(1)
-    scratch = os.path.join(WORK, "playback-%d" % os.getpid())
-    if os.path.exists(scratch):
-        shutil.rmtree(scratch)
-    shutil.copytree(HARNESS_DIR, scratch)
-    with open(os.path.join(scratch, h["file"]), "a") as f:
-        f.write("\n" + test_src + "\n")
-    env = base_env(seed, scratch)
-    env["CARGO_TARGET_DIR"] = os.path.join(WORK, "target-playback-" + h["crate"])
-    p = subprocess.run(["cargo", "kani", "playback", "-Z", "concrete-playback", "--", tn],
-                       cwd=os.path.join(REPO, CRATE_DIR[h["crate"]]), env=env,
-                       stdout=subprocess.PIPE, stderr=subprocess.STDOUT)
-    out = p.stdout.decode(errors="replace")
-    shutil.rmtree(scratch, ignore_errors=True)
-    log(out[-3000:])
-    if re.search(r"test .*%s .*\.\.\. FAILED" % re.escape(tn), out):
+    if isinstance(tests, str):
+        tests = [tests]
+    results = run_playback_tests(h, d.get("seed", seed), tests)
+    for k, v in results.items():
+        log("   %s: %s %s" % (k, v[0], v[1][:300].replace("\n", " | ")))
+    if any(v[0] in ("panicked", "timeout", "aborted") for v in results.values()):
         log("VIOLATION property=%s replay=%s" % (prop, path))
         return 1
-    if re.search(r"test .*%s .*\.\.\. ok" % re.escape(tn), out):
+    if all(v[0] == "passed" for v in results.values()):
         log("replay passes on this tree")
         return 0
     return 2
